@@ -194,7 +194,7 @@ def run_pack(pack_mod: str, tier="quick", jobs=None, only=None):
             known_lines.append(f"KNOWN-FINDING: property={prop} {k['id']}: {k['what']}")
     pack: Pack = mod.build(active_known=set(active)) if hasattr(mod, "build") else mod.PACK
     jobs = jobs or min(16, os.cpu_count() or 4)
-    tasks = [(pack_mod, i, tier, tuple(active)) for i, c in enumerate(pack.contracts) if not c.trusted and (only is None or only in c.key)]
+    tasks = [(pack_mod, i, tier, tuple(active)) for i, c in enumerate(pack.contracts) if not c.trusted and not getattr(c, "spec_only", False) and (only is None or only in c.key)]
     ltasks = [(pack_mod, i, tier, tuple(active)) for i in range(len(pack.lemmas)) if only is None or only in pack.lemmas[i][0]]
     results = []
     if jobs > 1 and len(tasks) + len(ltasks) > 1:
